@@ -313,6 +313,20 @@ class IMAPClientProxy:
                     # reason to drop the connection (and without a BYE.)
                     #
                     continue
+                except (ValueError, OverflowError, RecursionError) as e:
+                    # What the client sent has the form of a command but a
+                    # value in it is impossible (eg: the date `31-Feb-2020`,
+                    # a number beyond any limit, search keys nested thousands
+                    # deep): that is a bad command like any other, not a
+                    # reason to drop the connection without a word.
+                    #
+                    logger.debug("*** Bad command! '%s': %r", imap_msg[:200], e)
+                    reason = " ".join(str(e).split())[:200] or type(e).__name__
+                    if imap_cmd.tag is not None:
+                        await self.push(f"{imap_cmd.tag} BAD {reason}\r\n")
+                    else:
+                        await self.push(f"* BAD {reason}\r\n")
+                    continue
 
                 # Pass the command on to the command processor to handle.
                 #
